@@ -133,6 +133,86 @@ def reencrypt_cases(ctx, rng):
                         ctx.violation("reencrypted-plaintext-differs", f"re-encrypted token yields another plaintext for {desc}", {**case, "second_token": again.value})
 
 
+def scale_cases(ctx, rng):
+    """big and many: plaintexts of several MB (no zip: the decompression limit does not apply), dozens of recipients, long header values"""
+    j = J.load()
+    k128, k256 = gen.new_oct(128), gen.new_oct(256)
+    big = rng.randbytes(3 << 20)
+    for enc in ("A128GCM", "A256CBC-HS512"):
+        for alg, jwk in (("dir", gen.new_oct({"A128GCM": 128, "A256CBC-HS512": 512}[enc])), ("A256KW", k256)):
+            for form in ("compact", "flattened"):
+                ctx.ev()
+                A = [alg, enc]
+                key = j.key(jwk)
+                if form == "compact":
+                    o = call(j.jwe.encrypt_compact, {"alg": alg, "enc": enc}, big, key, algorithms=A)
+                    v = call(j.jwe.decrypt_compact, o.value, key, algorithms=A) if o.ok else o
+                else:
+                    obj = j.jwe.FlattenedJSONEncryption({"enc": enc}, big, None, b"aad " * 100000)
+                    obj.add_recipient({"alg": alg}, key)
+                    o = call(j.jwe.encrypt_json, obj, None, algorithms=A)
+                    v = call(j.jwe.decrypt_json, o.value, key, algorithms=A) if o.ok else o
+                ctx.count("scale_cases")
+                ctx.nontrivial(("scale", alg, enc, form))
+                ctx.cell("scale", form, "3MiB", enc)
+                case = {"scale": "3 MiB plaintext", "alg": alg, "enc": enc, "form": form}
+                if not o.ok or not v.ok:
+                    ctx.violation(f"scale:roundtrip-fails:{(v if o.ok else o).etype}", f"3 MiB plaintext, {alg}/{enc}, {form}: {(v if o.ok else o).exc!r}", case)
+                elif v.value.plaintext != big:
+                    ctx.violation("scale:plaintext-differs", f"3 MiB plaintext, {alg}/{enc}, {form}: {len(v.value.plaintext)} octets returned", case)
+    # many recipients, each with a key of its own, resolved by kid from a set of hundreds of keys
+    n = 40
+    jwks = []
+    for i in range(n):
+        a = ["A128KW", "A256KW", "ECDH-ES+A128KW", "A128GCMKW"][i % 4]
+        rk, _ = g.keys_for(a, "A128GCM", "P-256" if i % 8 < 4 else "X25519", kid=f"rcpt-{i}")
+        jwks.append((a, rk))
+    decoys = [{**gen.new_oct(128), "kid": f"decoy-{i}"} for i in range(300)]
+    privs = [x for _, x in jwks] + decoys
+    rng.shuffle(privs)
+    pubset = j.KeySet([j.key(x if x["kty"] == "oct" else gen.public_jwk(x)) for x in privs])
+    privset = j.KeySet([j.key(x) for x in reversed(privs)])
+    A = ["A128KW", "A256KW", "ECDH-ES+A128KW", "A128GCMKW", "A128GCM"]
+    obj = j.jwe.GeneralJSONEncryption({"enc": "A128GCM"}, b"many recipients")
+    for a, rk in jwks:
+        obj.add_recipient({"alg": a, "kid": rk["kid"]})
+    ctx.ev()
+    o = call(j.jwe.encrypt_json, obj, pubset, algorithms=A)
+    v = call(j.jwe.decrypt_json, copy.deepcopy(o.value), privset, algorithms=A) if o.ok else o
+    ctx.count("scale_cases")
+    ctx.nontrivial(("scale", "many-recipients"))
+    ctx.cell("scale", "general", f"{n}-recipients-340-keys")
+    case = {"scale": f"{n} recipients, key set of {len(privs)} keys"}
+    if not o.ok or not v.ok:
+        ctx.violation(f"scale:roundtrip-fails:{(v if o.ok else o).etype}", f"{case['scale']}: {(v if o.ok else o).exc!r}", case)
+    elif v.value.plaintext != b"many recipients" or len(o.value["recipients"]) != n:
+        ctx.violation("scale:plaintext-differs", f"{case['scale']}: plaintext or recipient list differs", case)
+    else:
+        # a few recipients on their own, and through the reference
+        from refjose import jwe as rjwe
+        from refjose.keys import RefKey
+        reg = j.jwe.JWERegistry(algorithms=A, verify_all_recipients=False)
+        for i in (0, 1, 2, 3, n - 1):
+            a, rk = jwks[i]
+            s1 = call(j.jwe.decrypt_json, copy.deepcopy(o.value), j.key(rk), registry=reg)
+            if not s1.ok or s1.value.plaintext != b"many recipients":
+                ctx.violation("scale:single-recipient-fails", f"{case['scale']}: recipient {i} ({a}) cannot decrypt alone: {s1.exc!r}", case)
+            r = rjwe.decrypt(o.value, RefKey.from_jwk(rk), policy="any")
+            if r.verdict != "ACCEPT" or r.payload != b"many recipients":
+                ctx.violation("scale:reference-rejects", f"{case['scale']}: the reference cannot decrypt recipient {i}: {r.reason}", case)
+    # very long header values
+    longv = "k" * 100000
+    ctx.ev()
+    o = call(j.jwe.encrypt_compact, {"alg": "A128KW", "enc": "A128GCM", "kid": longv, "cty": "é" * 30000}, b"x", j.key(k128), algorithms=["A128KW", "A128GCM"])
+    v = call(j.jwe.decrypt_compact, o.value, j.key(k128), algorithms=["A128KW", "A128GCM"]) if o.ok else o
+    ctx.count("scale_cases")
+    ctx.nontrivial(("scale", "long-header"))
+    if not o.ok or not v.ok:
+        ctx.violation(f"scale:roundtrip-fails:{(v if o.ok else o).etype}", f"100 kB kid: {(v if o.ok else o).exc!r}", {"scale": "long header values"})
+    elif v.value.protected.get("kid") != longv or v.value.protected.get("cty") != "é" * 30000 or v.value.plaintext != b"x":
+        ctx.violation("scale:header-differs", "100 kB kid / 30000-character cty came back differently", {"scale": "long header values"})
+
+
 def forbidden_cells(ctx, rng):
     """combinations the specifications forbid must be refused at encryption time"""
     j = J.load()
@@ -225,6 +305,8 @@ def run_shard(ctx):
         forbidden_cells(ctx, rng)
     if ctx.shard == 1:
         reencrypt_cases(ctx, rng)
+    if ctx.shard == 2:
+        scale_cases(ctx, rng)
     fc = forced(ctx.tier)
     for idx, kw in enumerate(fc):
         if idx % ctx.nshards != ctx.shard:
